@@ -55,6 +55,21 @@ def prepare(scratch, units, tier="quick"):
                     edits.append("extract the body of %s :: %s as `%s` with substitutions %s (signature replaced)"
                                  % (ex["file"], " :: ".join(ex["item"]), ex["as_fn"], ex.get("subst", {})))
                     continue
+                if "capture" in ex:
+                    # sub-expression slice: the single regex group captured in the comment-free,
+                    # whitespace-collapsed body of the fn, wrapped into a function
+                    body_txt = rs.fn_body_text(text, it)
+                    mms = list(re.finditer(ex["capture"], body_txt))
+                    if len(mms) != 1:
+                        raise Undecided("lost anchor: capture %r matches %d times in %s :: %s" % (ex["capture"], len(mms), ex["file"], ex["item"]))
+                    expr = mms[0].group(1)
+                    for a, b in ex.get("subst", {}).items():
+                        expr = expr.replace(a, b)   # optional renamings of generic constants to parameters
+                    parts.append("// sub-expression slice of %s :: %s : capture %r (renamings %s)\npub %s {\n    %s\n}\n"
+                                 % (ex["file"], " :: ".join(ex["item"]), ex["capture"], ex.get("subst", {}), ex["as_fn"], expr))
+                    edits.append("extract the sub-expression captured by %r from %s :: %s as `%s` (rest of the function dropped; renamings %s)"
+                                 % (ex["capture"], ex["file"], " :: ".join(ex["item"]), ex["as_fn"], ex.get("subst", {})))
+                    continue
                 if "field" in ex:
                     ex["let"] = ex["field"] + ":"   # reported as a field initialiser below
                 if "let" in ex:
